@@ -739,6 +739,11 @@ class IteratorQueue(IterableQueue[_ValueT]):
         _release_and_notify(
             self._states_lock, notify=self._dequeue_lock, notify_all=True
         )
+        # Enqueuers blocked on a full queue have to be woken up too: after an
+        # enqueue error the consumers can leave without dequeuing any more.
+        _release_and_notify(
+            self._states_lock, notify=self._enqueue_lock, notify_all=True
+        )
         logging.debug(
             'chainable: %s', f'"{self.name}" enqueue done, notify all'
         )
